@@ -122,6 +122,26 @@ def r6_dialled_session_is_pooled(ctx):
            "create_new_session can succeed without pooling the session", path=None if ok else render_path(body, p))
 
 
+def r7_pool_config_is_what_was_given(ctx):
+    """the pool runs with the configuration the user passed: Client::with_pool_config hands its parameter to the pool as it is"""
+    body = ctx.body("R13.7", CL + "with_pool_config")
+    if body is None:
+        return
+    o = ctx.origins(body)
+    wc = calls_norm(body, "SessionPool::with_config")
+    if not ctx.floor("R13.7", "SessionPool::with_config call in Client::with_pool_config", len(wc), 1):
+        return
+    t = o.of_operand(wc[0].args[0])
+    pc = param(body, 5)
+    direct = var_name(t) == pc
+    rebuilt = [s_ for s_ in subterms(t) if isinstance(s_, tuple) and s_ and s_[0] == "agg" and "SessionPoolConfig" in str(s_[1])]
+    dflt = [s_ for s_ in subterms(t) if is_call_term(s_, "Default>::default", "SessionPoolConfig::default")]
+    ok = direct and not rebuilt and not dflt
+    ctx.ob("R13.7", "with_pool_config:passes-the-given-config-on", ok, wc[0].site, "SessionPool::with_config(pool_config) — the parameter itself" if ok else
+           "the pool is built from `%s`, not from the configuration that was passed in: fields that are not copied (min_idle_sessions) silently fall back to their defaults, so the configured idle minimum is not kept "
+           "(or one session is kept for ever although 0 was configured)" % fmt(t)[:80])
+
+
 def r5_request_path_never_closes(ctx):
     """a failed request gives up its stream, not the session it ran on"""
     n = 0
@@ -161,6 +181,7 @@ def run(ctx):
             ctx.missing("R13.1", "match on get_idle_session in create_stream")
     r3_skip_closed(ctx)
     r3b_open_entry_is_returned(ctx)
+    r7_pool_config_is_what_was_given(ctx)
     r6_dialled_session_is_pooled(ctx)
     r4_pool_keys(ctx)
     r5_request_path_never_closes(ctx)
